@@ -540,6 +540,63 @@ impl WorldCfg {
     }
 }
 
+/// One-shot storage fault: when armed, the next `update_channel` fails (nothing is written) and the
+/// switch disarms itself.  Shared by every node of a world (also across restarts).
+#[derive(Default)]
+pub struct FaultSwitch {
+    fail_next_update_channel: std::sync::atomic::AtomicBool,
+    pub fired: std::sync::atomic::AtomicU32,
+}
+
+impl FaultSwitch {
+    pub fn arm(&self) {
+        self.fail_next_update_channel.store(true, std::sync::atomic::Ordering::SeqCst);
+    }
+    pub fn disarm(&self) {
+        self.fail_next_update_channel.store(false, std::sync::atomic::Ordering::SeqCst);
+    }
+}
+
+/// `Persist` wrapper around the in-memory persister that injects the armed fault.
+pub struct FaultyPersist {
+    pub inner: Arc<MemPersister>,
+    pub switch: std::sync::Arc<FaultSwitch>,
+}
+
+impl lightning_signer::SendSync for FaultyPersist {}
+
+impl Persist for FaultyPersist {
+    fn enter(&self) -> Result<(), lightning_signer::persist::Error> { self.inner.enter() }
+    fn prepare(&self) -> lightning_signer::persist::Mutations { Persist::prepare(&*self.inner) }
+    fn commit(&self) -> Result<(), lightning_signer::persist::Error> { Persist::commit(&*self.inner) }
+    fn put_batch_unlogged(&self, m: lightning_signer::persist::Mutations) -> Result<(), lightning_signer::persist::Error> { Persist::put_batch_unlogged(&*self.inner, m) }
+    fn new_node(&self, node_id: &PublicKey, config: &NodeConfig, state: &lightning_signer::node::NodeState) -> Result<(), lightning_signer::persist::Error> { self.inner.new_node(node_id, config, state) }
+    fn update_node(&self, node_id: &PublicKey, state: &lightning_signer::node::NodeState) -> Result<(), lightning_signer::persist::Error> { self.inner.update_node(node_id, state) }
+    fn delete_node(&self, node_id: &PublicKey) -> Result<(), lightning_signer::persist::Error> { self.inner.delete_node(node_id) }
+    fn new_channel(&self, node_id: &PublicKey, stub: &lightning_signer::channel::ChannelStub) -> Result<(), lightning_signer::persist::Error> { self.inner.new_channel(node_id, stub) }
+    fn delete_channel(&self, node_id: &PublicKey, channel: &ChannelId) -> Result<(), lightning_signer::persist::Error> { self.inner.delete_channel(node_id, channel) }
+    fn new_tracker(&self, node_id: &PublicKey, tracker: &lightning_signer::chain::tracker::ChainTracker<lightning_signer::monitor::ChainMonitor>) -> Result<(), lightning_signer::persist::Error> { self.inner.new_tracker(node_id, tracker) }
+    fn update_tracker(&self, node_id: &PublicKey, tracker: &lightning_signer::chain::tracker::ChainTracker<lightning_signer::monitor::ChainMonitor>) -> Result<(), lightning_signer::persist::Error> { self.inner.update_tracker(node_id, tracker) }
+    fn get_tracker(&self, node_id: PublicKey, validator_factory: Arc<dyn ValidatorFactory>) -> Result<(lightning_signer::chain::tracker::ChainTracker<lightning_signer::monitor::ChainMonitor>, Vec<lightning_signer::persist::ChainTrackerListenerEntry>), lightning_signer::persist::Error> { self.inner.get_tracker(node_id, validator_factory) }
+    fn update_channel(&self, node_id: &PublicKey, channel: &Channel) -> Result<(), lightning_signer::persist::Error> {
+        if self.switch.fail_next_update_channel.swap(false, std::sync::atomic::Ordering::SeqCst) {
+            self.switch.fired.fetch_add(1, std::sync::atomic::Ordering::SeqCst);
+            return Err(lightning_signer::persist::Error::Unavailable("injected storage fault".into()));
+        }
+        self.inner.update_channel(node_id, channel)
+    }
+    fn get_channel(&self, node_id: &PublicKey, channel_id: &ChannelId) -> Result<lightning_signer::persist::model::ChannelEntry, lightning_signer::persist::Error> { self.inner.get_channel(node_id, channel_id) }
+    fn get_node_channels(&self, node_id: &PublicKey) -> Result<Vec<(ChannelId, lightning_signer::persist::model::ChannelEntry)>, lightning_signer::persist::Error> { self.inner.get_node_channels(node_id) }
+    fn update_node_allowlist(&self, node_id: &PublicKey, allowlist: Vec<String>) -> Result<(), lightning_signer::persist::Error> { self.inner.update_node_allowlist(node_id, allowlist) }
+    fn get_node_allowlist(&self, node_id: &PublicKey) -> Result<Vec<String>, lightning_signer::persist::Error> { self.inner.get_node_allowlist(node_id) }
+    fn get_nodes(&self) -> Result<Vec<(PublicKey, lightning_signer::persist::model::NodeEntry)>, lightning_signer::persist::Error> { self.inner.get_nodes() }
+    fn clear_database(&self) -> Result<(), lightning_signer::persist::Error> { Persist::clear_database(&*self.inner) }
+    fn on_initial_restore(&self) -> bool { self.inner.on_initial_restore() }
+    fn recovery_required(&self) -> bool { self.inner.recovery_required() }
+    fn begin_replication(&self) -> Result<lightning_signer::persist::Mutations, lightning_signer::persist::Error> { self.inner.begin_replication() }
+    fn signer_id(&self) -> lightning_signer::persist::SignerId { Persist::signer_id(&*self.inner) }
+}
+
 pub struct World {
     pub cfg: WorldCfg,
     pub secp: Secp256k1<All>,
@@ -552,6 +609,8 @@ pub struct World {
     pub vfactory: Arc<dyn ValidatorFactory>,
     pub chans: Vec<Chan>,
     pub restarts: u32,
+    /// storage fault injection (plain memory-store worlds only)
+    pub fault: std::sync::Arc<FaultSwitch>,
 }
 
 const SIGNER_ID: [u8; 16] = [3u8; 16];
@@ -575,10 +634,11 @@ impl World {
     pub fn new_with_factory(cfg: WorldCfg, vfactory: Arc<dyn ValidatorFactory>) -> World {
         let store: Arc<MemPersister> = Arc::new(KVVPersister(MemoryKVVStore::new(SIGNER_ID), JsonFormat));
         let clock = Arc::new(ManualClock::new(Duration::from_secs(cfg.now_secs)));
+        let fault = std::sync::Arc::new(FaultSwitch::default());
         let services = NodeServices {
             validator_factory: vfactory.clone(),
             starting_time_factory: FixedStartingTimeFactory::new(1, 1),
-            persister: store.clone(),
+            persister: Arc::new(FaultyPersist { inner: store.clone(), switch: fault.clone() }),
             clock: clock.clone(),
             trusted_oracle_pubkeys: vec![],
         };
@@ -589,7 +649,7 @@ impl World {
         node.add_allowlist(&[]).expect("allowlist");
         store.new_node(&node.get_id(), &config, &*node.get_state()).expect("new_node");
         store.new_tracker(&node.get_id(), &node.get_tracker()).expect("new_tracker");
-        World { cfg, secp: Secp256k1::new(), node, store, cloud: None, clock, vfactory, chans: vec![], restarts: 0 }
+        World { cfg, secp: Secp256k1::new(), node, store, cloud: None, clock, vfactory, chans: vec![], restarts: 0, fault }
     }
 
     /// A world whose node persists through CloudKVVStore<MemoryKVVStore>.
@@ -613,7 +673,7 @@ impl World {
         cloud.new_tracker(&node.get_id(), &node.get_tracker()).expect("new_tracker");
         let _ = cloud.prepare();
         cloud.commit().expect("commit");
-        World { cfg, secp: Secp256k1::new(), node, store, cloud: Some(cloud), clock, vfactory, chans: vec![], restarts: 0 }
+        World { cfg, secp: Secp256k1::new(), node, store, cloud: Some(cloud), clock, vfactory, chans: vec![], restarts: 0, fault: std::sync::Arc::new(FaultSwitch::default()) }
     }
 
     /// Run one request inside the persister's transaction envelope (no-op envelope for the
@@ -736,6 +796,7 @@ impl World {
         let vf = self.vfactory.clone();
         let clock = self.clock.clone();
         let seed = self.cfg.seed;
+        let fault = self.fault.clone();
         call(move || {
             let ms = MemoryKVVStore::new(SIGNER_ID);
             ms.put_batch(dump.into_iter().map(|(k, v, val)| KVV(k, (v, val))).collect()).expect("copy store");
@@ -743,7 +804,7 @@ impl World {
             let services = NodeServices {
                 validator_factory: vf,
                 starting_time_factory: FixedStartingTimeFactory::new(1, 1),
-                persister: store.clone(),
+                persister: Arc::new(FaultyPersist { inner: store.clone(), switch: fault }),
                 clock,
                 trusted_oracle_pubkeys: vec![],
             };
